@@ -41,13 +41,13 @@ func (c12) Batches(tier string, seed uint64) []core.Batch {
 
 func (c12) Mandatory(tier string) []string {
 	m := []string{"stream:writer", "stream:reader", "stream:single-writer", "stream:single-reader", "stream:entry-sum-entry-sum", "stream:source-data+EOF", "stream:source-onebyte", "stream:source-chunks", "stream:zero-length-chunk", "stream:other-algorithm-name-rejected", "stream:subset-size-0",
-		"stream:subset-size-4", "stream:repeated-algorithm", "stream:len-0", "stream:len>=4096",
+		"stream:subset-size-4", "stream:repeated-algorithm", "stream:len-0", "stream:len>=4096", "stream:single-write>=256KiB-to-2+-hashers", "stream:entries-stable-after-later-entries",
 		"prov:best-sha256", "prov:best-sha512", "prov:best-both", "prov:dsc-sha256", "prov:sources-sha256", "prov:dsc-md5", "prov:dsc-sha1"}
 	for _, a := range c12Algos {
 		m = append(m, "prov:hasher-"+a)
 		m = append(m, "verify:"+a+":accept", "verify:"+a+":reject")
 	}
-	for _, h := range []string{"correct", "other-content", "truncated", "other-algorithm", "upper-case", "non-hex"} {
+	for _, h := range []string{"correct", "other-content", "truncated", "leading-zeros-dropped", "other-algorithm", "upper-case", "non-hex"} {
 		m = append(m, "recorded:"+h)
 	}
 	for _, s := range []string{"content", "bit-flipped", "truncated", "other", "empty"} {
@@ -95,6 +95,8 @@ type c12Stream struct {
 	Len   int      `json:"len"`
 	Seed  uint64   `json:"seed"`
 	Algos []string `json:"algos"`
+	// OneWrite: the whole stream goes into the writer in a single Write call (io.Copy from a bytes.Reader does that)
+	OneWrite bool `json:"onewrite,omitempty"`
 }
 
 var c12Lens = []int{0, 1, 55, 56, 63, 64, 65, 111, 112, 127, 128, 129, 4095, 4096, 4097}
@@ -161,6 +163,12 @@ func (p c12) stream(c *core.C, cs c12Stream) {
 		}
 		off := 0
 		cks := chunks(r, len(data))
+		if cs.OneWrite {
+			cks = []int{len(data)}
+			if len(data) >= 262144 && len(cs.Algos) >= 2 {
+				c.Cover("stream:single-write>=256KiB-to-2+-hashers")
+			}
+		}
 		for i, k := range cks {
 			if k == 0 {
 				c.Cover("stream:zero-length-chunk")
@@ -198,6 +206,29 @@ func (p c12) stream(c *core.C, cs c12Stream) {
 				}
 			}
 			c.Cover("stream:entry-sum-entry-sum")
+		}
+		// entries built earlier must not change when further entries are built (from any hasher, of any stream)
+		if len(hs) > 0 {
+			var kept, copies []control.FileHash
+			for _, h := range hs {
+				fh := control.FileHashFromHasher("kept", *h)
+				kept = append(kept, fh)
+				copies = append(copies, fh)
+			}
+			otherData := r.Bytes(r.Range(1, 500))
+			for _, a := range c12Algos {
+				if w2, h2, err := hashio.NewHasherWriter(a, io.Discard); err == nil {
+					w2.Write(otherData)
+					control.FileHashFromHasher("later", *h2)
+				}
+			}
+			for i := range kept {
+				want := hex.EncodeToString(digest(cs.Algos[i], data))
+				if kept[i].Hash != want || copies[i].Hash != want {
+					c.Failf("an entry built by FileHashFromHasher (%s, %d-byte stream) changed after further entries were built: hash now %q, was %q", cs.Algos[i], len(data), kept[i].Hash, want)
+				}
+			}
+			c.Cover("stream:entries-stable-after-later-entries")
 		}
 		check("NewHasherWriters", hs, cs.Algos, false)
 		c.Cover("stream:writer")
@@ -355,6 +386,17 @@ func (p c12) verify(c *core.C, cs c12Verify) {
 		rec = hex.EncodeToString(digest(cs.Algo, other))
 	case "truncated":
 		rec = trueHex[:len(trueHex)-2*r.Range(1, 4)]
+	case "leading-zeros-dropped":
+		// a digest that starts with zero digit(s), recorded without them (as a number would print)
+		want := "0"
+		if r.Chance(1, 3) {
+			want = "00"
+		}
+		for !strings.HasPrefix(trueHex, want) {
+			content = r.Bytes(r.Range(1, 300))
+			trueHex = hex.EncodeToString(digest(cs.Algo, content))
+		}
+		rec = strings.TrimLeft(trueHex, "0")
 	case "other-algorithm":
 		oa := c12Algos[(indexOf(c12Algos, cs.Algo)+r.Range(1, 3))%4]
 		rec = hex.EncodeToString(digest(oa, content))
@@ -504,6 +546,12 @@ func (p c12) RunBatch(t *core.T, b core.Batch) {
 			switch {
 			case i < len(c12Lens):
 				cs.Len = c12Lens[(i+b.Arg)%len(c12Lens)]
+			case i%16 == 9 || i%16 == 10:
+				cs.Len = r.Range(262144, 700000)
+				cs.OneWrite = true
+				if len(cs.Algos) < 2 {
+					cs.Algos = []string{"md5", "sha256", "sha512"}
+				}
 			case r.Chance(1, 10):
 				cs.Len = r.Range(65536, maxLen)
 			default:
@@ -515,7 +563,7 @@ func (p c12) RunBatch(t *core.T, b core.Batch) {
 	case "verify":
 		provs := []struct{ prov, algo string }{{"best-sha256", "sha256"}, {"best-sha512", "sha512"}, {"best-both", "sha256"}, {"dsc-sha256", "sha256"}, {"sources-sha256", "sha256"},
 			{"dsc-md5", "md5"}, {"dsc-sha1", "sha1"}, {"hasher-md5", "md5"}, {"hasher-sha1", "sha1"}, {"hasher-sha256", "sha256"}, {"hasher-sha512", "sha512"}}
-		recs := []string{"correct", "correct", "other-content", "truncated", "other-algorithm", "upper-case", "non-hex"}
+		recs := []string{"correct", "correct", "other-content", "truncated", "leading-zeros-dropped", "other-algorithm", "upper-case", "non-hex"}
 		strs := []string{"content", "content", "bit-flipped", "truncated", "other", "empty"}
 		for i := 0; i < b.N; i++ {
 			pv := provs[(i+b.Arg)%len(provs)]
